@@ -73,7 +73,15 @@ def derive_behaviours(ctx):
     ctx.add_tlc(res, "FrameLife_Gen focus=derive depth %d (exhaustive)" % depth, "R-generate")
     if not res.emitted:
         raise RuntimeError("FrameLife_Gen focus=derive produced nothing")
-    return list(res.emitted)
+    behs = list(res.emitted)
+    # and every sequence (depth 4) over the alphabet around the per-frame bookkeeping dictionary: frames created with a
+    # drift rate in it, copies, slices, add_metadata on parents and children, de-drifting "from metadata"
+    cfg = tlc.cfg_with("FrameLife_Gen.cfg", {"MaxOps": "4", "MaxObjs": "3", "MaxCreate": "1", "Focus": '"meta"'}, ctx.outdir)
+    res = tlc.run(MODULE, cfg, ctx.outdir, workers=1, timeout=2400)
+    ctx.add_tlc(res, "FrameLife_Gen focus=meta depth 4 (exhaustive)", "R-generate")
+    if not res.emitted or not any(s_["act"]["name"] == "DedriftMeta" for b in res.emitted for s_ in b if s_ != "done" and isinstance(s_, dict)):
+        raise RuntimeError("FrameLife_Gen focus=meta produced no de-drift from metadata")
+    return behs + list(res.emitted)
 
 
 def replay_list(ctx, behs, pid):
